@@ -48,38 +48,40 @@ func (s *scope) bind(varname, genName string) {
 	s.stack[len(s.stack)-1][varname] = genName
 }
 
-func (s *scope) pushForRange(loopVar string) (lVar, lLimit string) {
+func (s *scope) namesForRange(loopVar string) (lVar, lInit, lLimit, lInc, lIndex, lCount string) {
 	s.n++
 	n := strconv.Itoa(s.n)
-	s.stack = append(s.stack, map[string]string{
-		loopVar:   loopVar + n,
-		"__limit": loopVar + "Limit" + n,
-		"__index": loopVar + n,
-	})
-	return loopVar + n,
-		loopVar + "Limit" + n
+	return loopVar + n, loopVar + "Init" + n, loopVar + "Limit" + n, loopVar + "Inc" + n,
+		loopVar + "Index" + n, loopVar + "Count" + n
 }
 
-func (s *scope) pushForEach(loopVar string) (lVar, lList, lLen, lIndex string) {
+func (s *scope) namesForEach(loopVar string) (lVar, lList, lLen, lIndex string) {
 	s.n++
 	n := strconv.Itoa(s.n)
-	s.stack = append(s.stack, map[string]string{
-		loopVar:   loopVar + n,
-		"__limit": loopVar + "Limit" + n,
-		"__index": loopVar + "Index" + n,
-	})
 	return loopVar + n,
 		loopVar + "List" + n,
 		loopVar + "Limit" + n,
 		loopVar + "Index" + n
 }
 
-// looplimit returns the JS variable name for the innermost loop limit.
-func (s *scope) looplimit() string {
-	return s.lookup("__limit")
+// pushLoop opens the scope of a loop body: the loop variable and the JS names
+// of its index and of the number of iterations.
+func (s *scope) pushLoop(loopVar, jsVar, jsIndex, jsCount string) {
+	s.stack = append(s.stack, map[string]string{
+		loopVar:             jsVar,
+		loopVar + "__limit": jsCount,
+		loopVar + "__index": jsIndex,
+	})
 }
 
-// looplimit returns the JS variable name for the innermost loop index.
-func (s *scope) loopindex() string {
-	return s.lookup("__index")
+// looplimit returns the JS variable name for the number of iterations of the
+// loop that binds loopVar.
+func (s *scope) looplimit(loopVar string) string {
+	return s.lookup(loopVar + "__limit")
+}
+
+// loopindex returns the JS variable name for the index of the loop that binds
+// loopVar.
+func (s *scope) loopindex(loopVar string) string {
+	return s.lookup(loopVar + "__index")
 }
